@@ -105,6 +105,30 @@ def transform_fill_grid(chk):
         CC.check_font_pictures(chk, font, cfg, srcs, glyphs, 0.1, f"grid [{label}] [{flavour}]", replay, deltas=CC.layer_deltas(glyphs, cfg, 0.1))
 
 
+def nested_groups(chk, pid="C01"):
+    """Nested <g opacity> groups ending in every way relative to their parents (inner group last / first / in the
+    middle, three levels, a sibling or the end of the document after the outer group)."""
+    for k, name in enumerate(sorted(S.NESTED_GROUP_SHAPES)):
+        for rep in range(2):
+            r = common.rng(pid, "nested", name, rep)
+            glyphs = S.nested_group_scenario(r, name)
+            flavour = CC.FLAVOURS[(k + rep) % len(CC.FLAVOURS)]
+            tol = 0.1 if rep == 0 else -1.0
+            cfgkw = dict(color_format=flavour, keep_glyph_names=True, reuse_tolerance=tol, clip_to_viewbox=False)
+            cfg = build.base_config(**cfgkw)
+            srcs = CC.sources_from(glyphs)
+            replay = {"kind": "nested-groups", "shape": name, "config": {a: str(b) for a, b in cfgkw.items()}, "svgs": [x.svg_text for x in srcs]}
+            chk.case(key=("nested", name, rep), nontrivial=True)
+            chk.traces_validated += 1
+            try:
+                _, font = build.build(cfg, srcs, already_pico=True)
+            except Exception as e:
+                chk.violation(f"valid source with nested opacity groups fails to compile ({flavour}): {type(e).__name__}: {str(e)[:200]}", replay)
+                continue
+            CC.check_font_pictures(chk, font, cfg, srcs, glyphs, max(tol, 0), f"nested groups [{name}] [{flavour}]", replay,
+                                   deltas=CC.layer_deltas(glyphs, cfg, max(tol, 0)))
+
+
 def reuse_fill_grid(chk, pid="C01"):
     """reuse transform kinds x fill kinds, compiled to COLRv1 and compared with the source."""
     for k, (label, glyphs) in enumerate(S.reuse_fill_grid()):
@@ -225,6 +249,7 @@ def run(chk):
     chk.notes["model_scenarios"] = len(recs)
     replay_model_scenarios(chk, recs, 90 if quick else 2500)
     random_scenarios(chk, 60 if quick else 2500)
+    nested_groups(chk)
     coincidence_scenarios(chk, 60 if quick else 2000)
     transform_fill_grid(chk)
     reuse_fill_grid(chk)
